@@ -17,7 +17,7 @@ props.prop(
             'the view, right keys from the other dataset with the mask; isin(left, right) in that order; the four shapes '
             'dispatched exhaustively with a loud fall-through; recursion guard set before the recursive call, cleared in '
             'finally, tested on the other dataset',
-    not_decided='by-value equality across dtypes and string widths (the byte-concatenation trick), duplicates',
+    not_decided='that numpy\'s isin / result_type / byte views behave as documented; duplicates inside one dataset',
     assumptions=['_key_joins[other] = (own key attributes, other\'s key attributes)'])
 
 JOINS = 'glue.core.joins.get_mask_with_key_joins'
@@ -29,6 +29,7 @@ def run(ctx):
     ctx.guard(rule_b, ctx, ix)
     ctx.guard(rule_c, ctx, ix)
     ctx.guard(rule_d, ctx, ix)
+    ctx.guard(rule_e, ctx, ix)
 
 
 def rule_a(ctx, ix):
@@ -310,3 +311,91 @@ def rule_d(ctx, ix):
                             'the raw bytes: equal key values stored as int32 / int64, or as strings of different widths, never match, so '
                             'an n-n join between such columns selects nothing',
               shape='casts: %s / %s' % (ca_, cb_), where=where(f, a))
+
+
+CASTS = ('astype',)
+CAST_FUNCS = ('asarray', 'array', 'asanyarray', 'require', 'ascontiguousarray', 'fromiter')
+SCALAR_CASTS = ('float', 'int', 'float64', 'float32', 'float16', 'int64', 'int32', 'int16', 'int8', 'uint64', 'uint32', 'uint16', 'uint8',
+                'double', 'single', 'longdouble', 'intp', 'str_', 'bytes_', 'complex', 'complex128', 'bool_')
+COMMON = ('result_type', 'promote_types', 'common_type', 'find_common_type')
+
+
+def rule_e(ctx, ix):
+    """Keys are compared by value: in the join module no key column passes through a cast to a dtype fixed in the source
+    (only to the common dtype of the two sides), and no membership test assumes uniqueness of a column that was not
+    de-duplicated."""
+    R = 'C11.e'
+    ctx.describe(R, 'key values are compared exactly: no fixed-dtype cast of key data, no unfounded assume_unique', floor=6)
+    mod = ix.module('glue.core.joins')
+    if mod is None:
+        raise AnalysisError('glue.core.joins vanished')
+    funcs = [n for n in ast.walk(mod.tree) if isinstance(n, (ast.FunctionDef, ast.AsyncFunctionDef))]
+    from ..util import single_assignments
+    ncast = nmember = 0
+    for fn in funcs:
+        construct = 'glue.core.joins:%s' % fn.name
+        defs = single_assignments(fn)
+
+        def origin(e, depth=4):
+            while isinstance(e, ast.Name) and e.id in defs and depth:
+                e = defs[e.id]
+                depth -= 1
+            return e
+        for c in ast.walk(fn):
+            if not isinstance(c, ast.Call):
+                continue
+            nm = call_name(c)
+            dt = None
+            is_cast = False
+            if nm in CASTS and isinstance(c.func, ast.Attribute):
+                is_cast = True
+                dt = c.args[0] if c.args else kwarg(c, 'dtype')
+            elif nm in CAST_FUNCS and (kwarg(c, 'dtype') is not None or len(c.args) > 1) and c.args:
+                is_cast = True
+                dt = kwarg(c, 'dtype') or c.args[1]
+            elif nm in SCALAR_CASTS and len(c.args) == 1 and not c.keywords and \
+                    (isinstance(c.func, ast.Name) or unparse(c.func.value) in ('np', 'numpy')):
+                # float(x) / np.float64(x) of something that is not a literal
+                if not isinstance(c.args[0], ast.Constant):
+                    is_cast = True
+                    dt = c.func
+            if is_cast:
+                ncast += 1
+                src = origin(dt) if dt is not None else None
+                common = isinstance(src, ast.Call) and call_name(src) in COMMON and len(src.args) >= 2
+                fixed = src is not None and (isinstance(src, ast.Constant) or
+                                             (isinstance(src, (ast.Name, ast.Attribute)) and not isinstance(origin(src), ast.Call)
+                                              and unparse(src).rpartition('.')[2] in SCALAR_CASTS + ('bool', 'str', 'bytes', 'object', 'float_', 'int_'))
+                                             or (isinstance(src, ast.Call) and call_name(src) == 'dtype' and src.args and isinstance(src.args[0], ast.Constant)))
+                # a Boolean result buffer is not key data
+                boolbuf = fixed and unparse(src) in ('bool', 'np.bool_', "'bool'", "'?'") and nm != 'astype'
+                if boolbuf:
+                    ctx.ob(R, '%s `%s`' % (construct, norm(c)), 'a Boolean buffer, not key data', True, nontrivial=False)
+                    continue
+                ctx.idiom(R, '%s `%s`' % (construct, norm(c)), 'key data is only ever cast to the common dtype of the two sides of the join',
+                          accepted=common, absent=fixed,
+                          detail_absent='`%s` casts key values to a dtype fixed in the source (%s): keys that differ only beyond what that '
+                                        'type can represent (integers above 2**53 as float64, fractions as integers, long strings as short '
+                                        'ones) become equal, so rows are selected whose key is not the key of any selected row'
+                                        % (norm(c), unparse(src) if src is not None else '?'),
+                          shape='cast to `%s`' % (unparse(src) if src is not None else None), where='%s:%d' % (mod.relpath, c.lineno))
+            if nm in ('isin', 'in1d', 'intersect1d', 'setdiff1d', 'setxor1d', 'union1d'):
+                nmember += 1
+                au = kwarg(c, 'assume_unique')
+                if au is None and nm in ('isin', 'in1d') and len(c.args) > 2:
+                    au = c.args[2]
+                if au is None or (isinstance(au, ast.Constant) and au.value is False):
+                    ctx.ob(R, '%s `%s`' % (construct, norm(c)), 'membership test makes no uniqueness assumption', True)
+                    continue
+
+                def unique(e):
+                    e = origin(e)
+                    return isinstance(e, ast.Call) and call_name(e) == 'unique' and not e.keywords
+                ok = len(c.args) >= 2 and unique(c.args[0]) and unique(c.args[1])
+                ctx.ob(R, '%s `%s`' % (construct, norm(c)), 'assume_unique only when both operands were de-duplicated', ok,
+                       detail='`%s` tells numpy that both key arrays are free of duplicates, but %s cannot be shown to be the result of '
+                              'np.unique: with repeated key values (several rows per key, which is what a join is for) numpy returns a '
+                              'wrong mask' % (norm(c), ', '.join('`%s`' % norm(a) for a in c.args[:2] if not unique(a)) or 'an operand'),
+                       where='%s:%d' % (mod.relpath, c.lineno))
+    if nmember < 4:
+        raise AnalysisError('glue.core.joins: only %d membership tests found' % nmember)
